@@ -198,7 +198,11 @@ func blindSumRule(P *Program, R *Report) {
 	}{
 		{"index-in-range", "the blind index is below len(ms)", func(a Atom) bool {
 			g, ok := parseGuard(a, nil)
-			return ok && g.Kind == "int" && g.Subject == key && g.Rel == "<" && g.BoundA.String() == "len("+msD+")"
+			if !ok {
+				return false
+			}
+			rel, ok := g.intRel(key, "len("+msD+")")
+			return ok && rel == "<"
 		}},
 		{"slot-nil", "the slot is nil before the sum is stored", func(a Atom) bool { return desc(a.V) == msD+"["+key+"]" && a.Want == Nil }},
 		{"issuer-share-non-nil", "the issuer's share for this index is present (nil => error, not a panic)", func(a Atom) bool {
